@@ -1,5 +1,5 @@
 """Property -> rule composition.  Each function decides the statically decidable clauses of one property."""
-from .rules import kdefects, numeric, seed, typestate, ownership, clifford, circuit, stabilizer, adjoint, manifold, gellmann, twins, backend, masks, axes, pauli, convexroof, boundary, measure, relabel, angles, shapes, hermitian, ptrace, symplectic, groups
+from .rules import kdefects, numeric, seed, typestate, ownership, clifford, circuit, stabilizer, adjoint, manifold, gellmann, twins, backend, masks, axes, pauli, convexroof, boundary, measure, relabel, angles, shapes, hermitian, ptrace, symplectic, groups, round3b
 
 M = 'numqi.'
 DECISION_C05 = ['numqi.entangle.ppt.is_ppt', 'numqi.entangle.ppt.is_generalized_ppt',
@@ -61,6 +61,12 @@ def c06(proj, rep, tier):
     rep.floor('O1 alias sites of the cached symmetric-extension tables', nsites, 3)
     nf, ns = shapes.sh1b(proj, rep, ['numqi.entangle._misc.get_density_matrix_boundary'])
     rep.floor('SH1 batched operations of get_density_matrix_boundary', ns, 5)
+    n = round3b.hm4(proj, rep, None)
+    rep.floor('HM4 broadcast outer products v v^dagger in the package', n, 5)
+    n = round3b.sdp1(proj, rep, None)
+    rep.floor('SDP1 functions that answer by solving a convex program', n, 12)
+    n = round3b.df1(proj, rep)
+    rep.floor('DF1 pinned public defaults', n, 1)
     rep.assume('threshold exactness, interpolation distance, every beta inequality of the hierarchy and "inner-model states pass '
                'outer tests" are eigenvalue / solver quantities: not decided. Decided: the structural necessary conditions - a genuine '
                'partial transpose for symbolic dims, monotone intersection of intervals, complete constraint sets that only grow.')
@@ -80,6 +86,11 @@ def c13(proj, rep, tier):
     rep.floor('F1 log sites in eof / measure', n, 2)
     n = numeric.f2(proj, rep, ['numqi.entangle.eof', 'numqi.entangle.measure'])
     rep.floor('F2 sqrt(1-C^2) sites in the closed forms', n, 2)
+    n6, n7 = round3b.f6_f7(proj, rep, ['numqi.entangle.eof', 'numqi.entangle.measure'] if tier == 'quick' else None)
+    rep.floor('F6 functions scanned for scipy.linalg.sqrtm', n6, 19)
+    rep.floor('F7 entr sites', n7, 1)
+    n = round3b.v3(proj, rep, ['numqi.entangle.eof', 'numqi.entangle.measure'] if tier == 'quick' else None)
+    rep.floor('V3 rank truncations of the target spectrum', n, 4)
     rep.assume('ranges, local-unitary invariance, monotone relations between the measures, "non-zero iff NPT" and loss >= closed form '
                'numerically are value-level: not decided. The GME model builds its contraction lists from len(dim_list) (not literal): '
                'only clauses (a),(b) are decided for it.')
@@ -190,6 +201,8 @@ def c02(proj, rep, tier):
     rep.floor('G2 projected Gell-Mann synthesis sites in the manifold maps', ntyped, 6)
     n = manifold.w7(proj, rep, MANIFOLD)
     rep.floor('W7 branch paths whose theta column slices are typed', n, 6)
+    n = round3b.w8(proj, rep, MANIFOLD if tier == 'quick' else None)
+    rep.floor('W8 forward trivialization maps scanned for saturating functions', n, 25)
     rep.assume('full rank of the Jacobian at generic theta is value-level: only necessary conditions (parameter count, theta '
                'placed in a field the projection keeps, theta reaches the map) are decided')
     rep.assume('Stiefel so-exp/so-cayley at rank==dim parametrise SO(d)/SU(d) (as the option name says), so the bound used '
@@ -215,6 +228,12 @@ def c08(proj, rep, tier):
     nfun, tot = seed.run(proj, rep, ['numqi.random._spf2'])
     rep.floor('seed functions in random._spf2 (rand_pauli)', nfun, 4)
     n = twins.tw(proj, rep, ['numqi.gate._pauli'])
+    n = round3b.e5(proj, rep)
+    rep.floor('E5 scalar index -> F2 phase-bit obligations', n, 2)
+    n = kdefects.st2(proj, rep, ['numqi.gate._pauli'] if tier == 'quick' else None)
+    rep.floor('ST2 shape snapshots used to restore a batch layout (Pauli conversions)', n, 3)
+    n = kdefects.fz1_so1_id1_ev1(proj, rep, ['numqi.gate._pauli', 'numqi.random._spf2'] if tier == 'quick' else None)
+    rep.floor('ID1 / FZ1 / SO1 / EV1 lint sweep: functions scanned (Pauli modules)', n, 30)
     rep.assume('the group law on F2 vectors (phase carries of product / inverse), byte order of unpackbits and Hermiticity of '
                'rand_pauli are value-level on a finite domain - the right tool is the exhaustive enumeration the property itself '
                'proposes, which is not this family: not decided')
@@ -258,6 +277,13 @@ def c15(proj, rep, tier):
     rep.floor('AG5 gimbal-threshold defaults', n, 3)
     n = angles.ag1(proj, rep)
     rep.floor('AG1/F3 inverse-trigonometric sites of the angle extraction', n, 6)
+    G15 = ['numqi.group._lie', 'numqi.matrix_space._clebsch_gordan'] if tier == 'quick' else None
+    n = kdefects.fz1_so1_id1_ev1(proj, rep, G15)
+    rep.floor('FZ1 / SO1 / ID1 / EV1 lint sweep: functions scanned (SU(2)/SO(3) modules)', n, 15)
+    n = kdefects.up1_fw1(proj, rep, G15)
+    rep.floor('UP1 / FW1 parameters checked (SU(2)/SO(3) modules)', n, 30)
+    n = round3b.dt6(proj, rep, G15)
+    rep.floor('DT6 angle buffers allocated with zeros_like', n, 2)
     rep.assume('numerical accuracy of the recovered angles, the SU(2)->SO(3) homomorphism, Wigner-d and Clebsch-Gordan relations are '
                'value-level: not decided. Decided: batches are converted element-wise (MS1); full-circle angles are never recovered from '
                'one arccos alone (AG1); arccos arguments that reach 1+ulp at degenerate rotations are clipped (F3).')
@@ -383,6 +409,10 @@ def c10(proj, rep, tier):
     rep.floor('O4 external reads of PauliOperator.F2 (positive control)', n, 2)
     n = hermitian.hm1(proj, rep, ['numqi.random._internal'] if tier == 'quick' else sorted(proj.modules))
     rep.floor('HM1 self-adjoint compositions in the random generators', n, 8)
+    n = kdefects.n2(proj, rep, ['numqi.random._internal', 'numqi.random._public', 'numqi.random._spf2'])
+    rep.floor('N2 norms of (count, dim) samples in the random generators', n, 1)
+    n = round3b.s8(proj, rep, None)
+    rep.floor('S8 unseeded generator constructions in seed-accepting functions', n, 2)
     rep.assume('calls through user callables (model(), gate.forward, theta0 callables) are not followed: the claim is '
                '"no seed leak in numqi\'s own code on the resolved paths"')
     rep.assume('bit-identical output additionally needs deterministic NumPy/LAPACK kernels (assumed)')
@@ -400,7 +430,9 @@ def c11(proj, rep, tier):
     n = measure.m1(proj, rep)
     rep.floor('M1 bit-order obligation', n, 1)
     n = measure.m3(proj, rep)
-    rep.floor('M3 Born-rule / collapse structure obligations', n, 6)
+    rep.floor('M3 Born-rule / collapse structure obligations', n, 7)
+    n = kdefects.pu2(proj, rep, ['numqi.sim.circuit.Circuit'])
+    rep.floor('PU2 Circuit builder methods that take arguments', n, 10)
     n = ownership.pu1(proj, rep, ['numqi.sim.state'])
     rep.floor('PU1 simulator primitives with in-place stores', n, 2)
     n = adjoint.d1(proj, rep)
@@ -430,6 +462,12 @@ def c18(proj, rep, tier):
     rep.floor('KR1 batched Kronecker products (tetrahedron POVM)', n, 1)
     n = ownership.o3(proj, rep, ['numqi.state._internal', 'numqi.entangle.upb', 'numqi.dicke'])
     rep.floor('O3 public constructors of numqi.state / entangle.upb', n, 20)
+    n = round3b.o3b(proj, rep, ['numqi.state._internal', 'numqi.entangle.upb', 'numqi.dicke'])
+    rep.floor('O3B value returns of the public catalogue constructors', n, 25)
+    n = round3b.f8(proj, rep, ['numqi.state._internal'] if tier == 'quick' else None)
+    rep.floor('F8 computed radicands with a clamp in reach', n, 1)
+    n = round3b.rp1(proj, rep, ['numqi.entangle.upb.load_upb'])
+    rep.floor('RP1 two-party block lists built from role-suffixed parameters', n, 1)
 
 
 def c20(proj, rep, tier):
@@ -452,6 +490,11 @@ def c20(proj, rep, tier):
     n = gellmann.g3(proj, rep, ['numqi.matrix_space._misc.get_matrix_orthogonal_basis',
                                 'numqi.matrix_space._misc.detect_commute_matrix'])
     rep.floor('G3 analyse/reduce/synthesise sites', n, 4)
+    G20 = ['numqi.matrix_space._misc', 'numqi.matrix_space._numerical_range', 'numqi.matrix_space._hierarchy'] if tier == 'quick' else None
+    n = kdefects.fz1_so1_id1_ev1(proj, rep, G20)
+    rep.floor('EV1 / FZ1 / SO1 / ID1 lint sweep: functions scanned (matrix_space)', n, 30)
+    rep.floor('EV1 eigenvector selections in matrix_space', rep.analysed.get('EV1.eigenvector_selections', 0), 2)
+    round3b.dt4(proj, rep, G20)
 
 
 def c17(proj, rep, tier):
@@ -468,6 +511,8 @@ def c17(proj, rep, tier):
     n = kdefects.dt2(proj, rep, ['numqi.dicke'])
     rep.floor('DT2 functions of numqi.dicke', n, 7)
     backend.b1(proj, rep, ['numqi.dicke'], expect_match={'numqi.dicke.partial_trace_ABk_to_AB#0'})
+    n = kdefects.ar3(proj, rep, ['numqi.dicke', 'numqi.utils'])
+    rep.floor('AR3 call sites with bare-name arguments in dicke + utils', n, 7)
     rep.assume('orthonormality / permutation invariance of the Dicke vectors and the occupation-number identity itself '
                '(<r|D_a><D_b|s> summed over the other copies) are value-level: not decided')
 
@@ -485,6 +530,12 @@ def c09(proj, rep, tier):
     rep.floor('SP5 inner product / transvection / inverse / purity', n, 4)
     n = symplectic.sp6(proj, rep)
     rep.floor('SP6 find_transvection twin blocks', n, 1)
+    n = round3b.el1(proj, rep, ['numqi.group.spf2'] if tier == 'quick' else None)
+    rep.floor('EL1 new axes appended under an open-rank guard', n, 1)
+    n = round3b.dt5(proj, rep, ['numqi.group.spf2', 'numqi.random._spf2'])
+    rep.floor('DT5 float-default constructors in the GF(2) modules', n, 5)
+    n = round3b.mr1(proj, rep, ['numqi.group.spf2', 'numqi.random._spf2'] if tier == 'quick' else None)
+    rep.floor('MR1 single-loop comprehensions scanned for same-number residues', n, 5)
     n = seed.s5(proj, rep, ['numqi.random._spf2'])
     n = seed.s7(proj, rep, ['numqi.random._spf2'])
     rep.floor('S7 generator constructions in random._spf2', n, 3)
@@ -511,6 +562,13 @@ def c14(proj, rep, tier):
     rep.floor('HM2 unitary changes of basis in the irrep reduction', n, 1)
     ncache, nsites = ownership.o1(proj, rep, focus={'numqi.group._symmetric._get_symmetric_group_cayley_table_hf0', 'numqi.group._symmetric._get_hook_length_hf0',
                                                     'numqi.group._symmetric._get_sym_group_num_irrep_hf0'})
+    G14 = ['numqi.group._symmetric', 'numqi.group._internal'] if tier == 'quick' else None
+    n = round3b.mc2(proj, rep, G14)
+    rep.floor('MC2 modules scanned for hand-rolled module-level memos', n, 2)
+    n = kdefects.fz1_so1_id1_ev1(proj, rep, G14)
+    rep.floor('SO1 / FZ1 / ID1 / EV1 lint sweep: functions scanned (group modules)', n, 25)
+    n = kdefects.up1_fw1(proj, rep, G14)
+    rep.floor('UP1 parameters read beyond their own normalisation (group modules)', n, 40)
     rep.assume('that a computed table satisfies the group axioms, that irreducible blocks are unitary homomorphisms with sum d^2 = |G|, that the Young-diagram '
                'list is the set of partitions and that the tableau enumeration matches the hook-length count are value-level: not decided')
 
